@@ -356,6 +356,10 @@ def catalogue():
     add('dot:const_right_vec', lambda a: A.dot(a, np.array([1., 2., -0.5])), [((2, 3), 'R')], ['dot', 'const'])
     add('outer', lambda a, b: A.outer(a, b), [(V, 'R'), (V, 'R')], ['dot'])
     add('outer:different_length', lambda a, b: A.outer(a, b), [(V, 'R'), ((2,), 'R')], ['dot'])
+    # a constant (plain array) operand on either side
+    add('outer:const_right', (lambda c: lambda a: A.outer(a, c))(np.array([1.5, -2.0, 0.25])), [(V, 'R')], ['dot', 'const'])
+    add('outer:const_left', (lambda c: lambda a: A.outer(c, a))(np.array([1.5, -2.0])), [(V, 'R')], ['dot', 'const'])
+    add('outer:const_both_ways', (lambda c: lambda a: A.dot(A.outer(a, c), A.outer(c, a)))(np.array([0.5, -1.0, 2.0])), [(V, 'R')], ['dot', 'const'])
     add('outer:same_operand', lambda a: A.outer(a, a), [(V, 'R')], ['dot', 'alias'])
     # --- linear algebra
     add('inv', lambda X: A.inv(_wc(X)), [(M, 'R')], ['linalg'])
@@ -363,9 +367,9 @@ def catalogue():
     add('solve:const_rhs', lambda X: A.solve(_wc(X), np.array([[1., 2.], [0., -1.], [3., 0.5]])), [(M, 'R')], ['linalg', 'const'])
     # constant matrices as they come out of LAPACK / transposes: Fortran-ordered, transposed views (the constant is kept by the graph)
     KC = np.array([[4., 1., -1.], [0.5, 3., 1.], [1., -0.5, 5.]])
-    add('solve:const_A', (lambda K: lambda B: A.solve(K, B))(KC.copy()), [((3, 2), 'R')], ['linalg', 'const', 'nopb'])
-    add('solve:const_A_fortran', (lambda K: lambda B: A.solve(K, B))(np.asfortranarray(KC)), [((3, 2), 'R')], ['linalg', 'const', 'layout', 'nopb'])
-    add('solve:const_A_transposed_vec', (lambda K: lambda b: A.solve(K.T, b))(KC.copy()), [((3,), 'R')], ['linalg', 'const', 'layout', 'nopb'])
+    add('solve:const_A', (lambda K: lambda B: A.solve(K, B))(KC.copy()), [((3, 2), 'R')], ['linalg', 'const'])
+    add('solve:const_A_fortran', (lambda K: lambda B: A.solve(K, B))(np.asfortranarray(KC)), [((3, 2), 'R')], ['linalg', 'const', 'layout'])
+    add('solve:const_A_transposed_vec', (lambda K: lambda b: A.solve(K.T, b))(KC.copy()), [((3,), 'R')], ['linalg', 'const', 'layout', 'nopb'])          # (a 1-D right hand side is refused by solve itself)
     add('dot:const_left_fortran', (lambda K: lambda b: A.dot(K, b))(np.asfortranarray(KC)), [((3, 2), 'R')], ['dot', 'const', 'layout'])
     add('det', lambda X: A.det(_wc(X)), [(M, 'R')], ['linalg'])
     add('det:pivoting', lambda X: A.det(_wc(X)[::-1]), [(M, 'R')], ['linalg', 'pivot'])
@@ -492,6 +496,18 @@ def catalogue():
     add('fft:magnitude_of_spectrum', lambda x: A.absolute(A.fft.fft(x) + 5.0), [((4,), 'unit')], ['fft', 'complex-intermediate'])
     add('fft:magnitude_times_phase_part', lambda x: (lambda z: A.absolute(z) * A.imag(z) + A.real(z) / A.absolute(z))(A.fft.fft(x) + (5.0 + 1.0j)), [((4,), 'unit')],
         ['fft', 'complex-intermediate'])
+    # transforms padded with zeros / truncated (n different from the length of the axis): only the first min(n, N) entries take part
+    add('fft:n_one', lambda x: A.real(A.fft.fft(x, n=1)) * 2.0 + A.imag(A.fft.fft(x * x, n=1)), [((4,), 'R')], ['fft', 'kwargs'])
+    add('fft:n_shorter', lambda x: A.real(A.fft.fft(x, n=3)) - A.imag(A.fft.fft(x, n=2))[1] , [((4,), 'R')], ['fft', 'kwargs'])
+    add('fft:n_longer', lambda x: A.real(A.fft.fft(x, n=6)) + A.imag(A.fft.fft(x, n=6)), [((4,), 'R')], ['fft', 'kwargs'])
+    add('ifft:n_shorter_axis0', lambda X: A.real(A.fft.ifft(X, n=2, axis=0)) + A.imag(A.fft.ifft(X, n=2, axis=0)), [((3, 2), 'R')], ['fft', 'kwargs'])
+    add('ifft:n_longer', lambda x: A.real(A.fft.ifft(A.fft.fft(x, n=5), n=7)), [((4,), 'R')], ['fft', 'kwargs'])
+    # a complex constant right hand side with a traced real matrix
+    add('solve:traced_A_complex_const_rhs', (lambda B: lambda X: (lambda Y: A.real(Y) * A.imag(Y))(A.solve(_wc(X), B)))(np.array([[1. + 2.j, 0.5], [0. - 1.j, -1.], [3., 0.5 + 0.5j]])),
+        [(M, 'R')], ['linalg', 'const', 'complex-intermediate'])
+    # the builtin abs() on traced values, real and complex
+    add('abs:builtin', lambda x: abs(x) * x + abs(x - 0.1), [(V, 'nz')], ['unary', 'piecewise'])
+    add('fft:builtin_abs_of_spectrum', lambda x: abs(A.fft.fft(x) + 5.0), [((4,), 'unit')], ['fft', 'complex-intermediate'])
     add('fft:matrix_default_axis', lambda X: A.real(A.fft.fft(X)) - A.imag(A.fft.fft(X)), [((3, 2), 'R')], ['fft'])
     add('fft:axis-1', lambda X: A.real(A.fft.fft(X, axis=-1)) + A.imag(A.fft.fft(X, axis=-1)), [((3, 4), 'R')], ['fft', 'kwargs'])
     add('fft:axis1', lambda X: A.real(A.fft.fft(X, axis=1)), [((2, 3), 'R')], ['fft', 'kwargs'])
